@@ -93,15 +93,24 @@ def goalSt : St :=
   .ret)))))
   .skip)
 
-def whileBody : St :=
-  (.seq (.scope (mcSt q4))
+def wbTail : St :=
+  (.seq rxLoop
+  (.setI "num_open" (.sum "is_open")))
+
+def wbGoal : St :=
+  (.seq goalSt
+  wbTail)
+
+def wbPop : St :=
   (.seq (.setI "py" (.var "_min_cost_pixel_id4$ret0"))
   (.seq (.setI "px" (.var "_min_cost_pixel_id4$ret1"))
   (.seq (.stI2 "is_open" (.var "py") (.var "px") (.lit 0))
   (.seq (.stI2 "is_closed" (.var "py") (.var "px") (.lit 1))
-  (.seq goalSt
-  (.seq rxLoop
-  (.setI "num_open" (.sum "is_open")))))))))
+  wbGoal))))
+
+def whileBody : St :=
+  (.seq (.scope (mcSt q4))
+  wbPop)
 
 def mainLoop : St :=
   (.while (.cmpI .gt (.var "num_open") (.lit 0))
